@@ -62,6 +62,7 @@ package s2
 //@   fpcmp
 //@   ensures [empty-stays-empty] c.IsEmpty() ==> result.IsEmpty()
 
+//@ property C19 C10
 // AddPoint: the new point is a member, old members stay members, the centre of a non-empty cap does not move
 //@ func (c Cap) AddPoint(p Point) Cap
 //@   fpcmp
@@ -81,6 +82,7 @@ package s2
 //@   ensures [empty-right] !c.IsEmpty() && other.IsEmpty() ==> vcSame(result, c)
 //@   ensures [kept] !c.IsEmpty() && c.ContainsPoint(q) ==> result.ContainsPoint(q)
 
+//@ property C19
 //@ func (c Cap) Union(other Cap) Cap
 //@   fpcmp
 //@   requires !vcIsNaN(float64(c.radius)) && !vcIsNaN(float64(other.radius))
